@@ -7,6 +7,8 @@
 #include <assert.h>
 
 int  verif_cas(void *volatile *l, void *o, void *n);
+int  verif_cas32(volatile int *l, int o, int n);          /* the `int` lock of PY_VERSION_HEX < 3.12 */
+void *verif_icx(void *volatile *l, void *n, void *o);     /* InterlockedCompareExchangePointer: returns the old value */
 void verif_barrier(void);
 void verif_assert(int ok, const char *text);
 int  verif_mutex_init(void *m);
@@ -22,8 +24,12 @@ void verif_call_python(int lib, struct _cffi_externpy_s *e, char *args);
 
 #undef assert
 #define assert(x) verif_assert(!!(x), #x)
+/* type-generic like the builtin: the operand is a pointer-sized slot (3.12+: tp_as_buffer, and the
+   `lock` of _cffi_acquire_reentrant_mutex) or an int (< 3.12: tp_version_tag) */
 #define __sync_bool_compare_and_swap(l, o, n) \
-        verif_cas((void *volatile *)(l), (void *)(o), (void *)(n))
+        (sizeof(*(l)) == sizeof(int) \
+         ? verif_cas32((volatile int *)(l), (int)(long)(o), (int)(long)(n)) \
+         : verif_cas((void *volatile *)(l), (void *)(long)(o), (void *)(long)(n)))
 #define __sync_synchronize() verif_barrier()
 #define pthread_mutexattr_init(a)        ((void)(a), 0)
 #define pthread_mutexattr_settype(a, t)  ((void)(a), 0)
